@@ -43,6 +43,9 @@ def run(prog, chk):
     functions(prog, chk)
     malformed(prog, chk)
     once_and_rng(prog, chk)
+    from props import geomalg
+    n = geomalg.check_sites(prog, chk, "C14")
+    chk.floor("A17.site-algebra", n, 36, "built-in function compared with the reference algebra")
 
 
 def _fn(prog, name):
@@ -328,6 +331,34 @@ def malformed(prog, chk):
         chk.ob(good, "A13.arity", fn, b.where(), f"{fn}() succeeds only for exactly {n_} values (surplus arguments are an error)", f"{fn}() can succeed when the number of values is not exactly {n_}")
 
 
+def each_occurrence(prog, chk):
+    """eval_expr: every `{{..}}` block found in a value is handed to eval_str in the same pass of the scanning loop
+    (no block is answered from a cache or skipped)"""
+    b = prog.body("svgdx::expression::eval_expr")
+    chk.touch(b)
+    evals = [bb for (bb, t, c) in b.call_sites(lambda c: c.path == "svgdx::expression::eval_str")]
+    finds = [(bb, t) for (bb, t, c) in b.call_sites(lambda c: c.path.endswith("str>::find"))]
+    if len(evals) != 1 or not finds:
+        chk.anchor_missing("A13.each-occurrence", f"eval_expr: expected one eval_str call and the delimiter searches (found {len(evals)} / {len(finds)})")
+        return
+    ev = evals[0]
+    dom = [(bb, t) for (bb, t) in finds if b.dominates(bb, ev)]
+    if not dom:
+        chk.anchor_missing("A13.each-occurrence", "eval_expr: no delimiter search dominates the eval_str call")
+        return
+    # the innermost dominating search is the one for the closing delimiter
+    end_bb, end_t = [x for x in dom if all(b.dominates(y[0], x[0]) for y in dom)][0]
+    sw = R.find_switch_on_discr(b, end_t["t"], end_t["dest"][0])
+    some = [tgt for v, tgt in sw[1]["vals"] if v == 1] if sw else []
+    loop = R.loop_containing(b, ev)
+    if not some or loop is None:
+        chk.anchor_missing("A13.each-occurrence", "eval_expr: cannot find the `found` edge of the closing-delimiter search / the scanning loop")
+        return
+    header = loop[0] if isinstance(loop, (tuple, list)) else loop.get("header")
+    leak = header in b.reach(some, avoid={ev})
+    chk.ob(not leak, "A13.each-occurrence", "eval_expr", b.where(ev), "every {{..}} block found is evaluated by eval_str in that pass of the scan (no path from `closing delimiter found` back to the loop head avoids it)", "eval_expr can consume a {{..}} block without evaluating it (a path from `closing delimiter found` returns to the loop head without calling eval_str): a repeated expression is answered from an earlier result, so random functions do not advance once per occurrence")
+
+
 def once_and_rng(prog, chk):
     from props import C16
     sub = type(chk)(chk.pid, chk.tier)
@@ -339,6 +370,7 @@ def once_and_rng(prog, chk):
     ef = prog.body("svgdx::functions::eval_function")
     arms = _arms_by_variant(prog.hir[ef.id])
     users = [v for v, a in arms.items() if "get_rng" in _called_fns(a)]
+    each_occurrence(prog, chk)
     chk.ob(sorted(users) == ["RandInt", "Random"], "A10.rng-arms", "eval_function", ef.where(), "the RNG is drawn from only in the random() and randint() arms, once per evaluation of the call", f"RNG draws in arms {sorted(users)}")
 
 
